@@ -611,7 +611,9 @@ DataView dataSlice(const DataArray &array, const std::vector<double> &start, con
         if (my_start[i] > my_end[i]) {
             throw std::invalid_argument("Start position must not be larger than end position.");
         }
-        std::vector<optional<std::pair<ndsize_t, ndsize_t>>> indices = positionToIndex({my_start[i]}, {my_end[i]}, {my_units[i]}, match, dim);
+        // a dimension the caller did not specify was padded with its first and last position: it is included in full in either mode
+        RangeMatch dim_match = (i < start.size() && i < end.size()) ? match : RangeMatch::Inclusive;
+        std::vector<optional<std::pair<ndsize_t, ndsize_t>>> indices = positionToIndex({my_start[i]}, {my_end[i]}, {my_units[i]}, dim_match, dim);
         if (!indices[0]) {
             optional<ndsize_t> ofst = positionToIndex(my_start[i], my_units[i], PositionMatch::GreaterOrEqual, dim);
             if (my_end[i] - my_start[i] > std::numeric_limits<double>::epsilon() || !ofst) {
